@@ -341,7 +341,7 @@ func c20Body(c *ev.Ctx) {
 		}
 		var mu sync.Mutex
 		nfail := 0
-		e := &vsched.Explorer{Bound: jb.bound, Fine: true, UseKeys: false, MaxSteps: 2000000, Workers: 1 /* one execution at a time: the code under test may (wrongly) hold package-level state, which parallel executions in one process would share */, Deadline: c.Deadline, NewRun: c20Run(c, &sc, nil), AfterRun: vhttp.Uninstall,
+		e := &vsched.Explorer{Bound: jb.bound, Fine: true, UseKeys: false, CountOnly: true, MaxSteps: 2000000, Workers: 1 /* one execution at a time: the code under test may (wrongly) hold package-level state, which parallel executions in one process would share */, Deadline: c.Deadline, NewRun: c20Run(c, &sc, nil), AfterRun: vhttp.Uninstall,
 			Filter: func(p *vsched.Point, alt int) bool {
 				return strings.HasPrefix(p.Running, "conn-") && strings.HasPrefix(p.Enabled[alt], "conn-")
 			}}
